@@ -86,7 +86,29 @@ def scripted():
         S.append(("hotcold-truncated%d" % f, 1, P3 + [AO_ON, op("dmg_hot_truncate", f, 0, 1), op("hotcold", 0, 1), op("hotcold", 0, 0)]))
     S.append(("hotcold-ops", 1, P3 + [op("forget"), AO_ON, op("forget"), op("prune", 0, 0, 1), op("repair_index", 1, 0), op("rewrite", 1, 0, 0), op("rewrite", 0, 0, 0),
               op("config", 0, 0, 4), op("merge"), AO_OFF, op("prune", 0, 0, 5)]))
+    # ---- storage faults inside apply_config: stored config vs. the config the handle holds
+    P2 = [op("backup"), op("backup")]
+    destructive_same = [op("h_forget", 0, 0, 0), op("h_prune", 0, 0, 1), op("h_repair_index", 1, 0), op("h_rewrite", 1, 0, 0),
+                        op("h_repair_snapshots", 1, 0), op("h_config", 0, 0, 4)]
+    destructive_fresh = [op("forget", 0, 0, 2), op("prune", 0, 0, 1), op("repair_index", 1, 0)]
+    for mode, ks in ((1, (0, 1, 2, 3)), (0, (0, 2))):
+        for k in ks:
+            # enabling append-only fails at write k
+            S.append(("config-fault-enable/%d/k%d" % (mode, k), mode, P2 + [op("config_fault", 0, 0, 10 * k + 2)] + destructive_same + destructive_fresh))
+            # disabling it fails at write k
+            S.append(("config-fault-disable/%d/k%d" % (mode, k), mode, P2 + [AO_ON, op("config_fault", 0, 0, 10 * k + 1)] + destructive_same[:2] + destructive_fresh[:2]))
+            # another setting is changed on an append-only repository that is being switched off
+            S.append(("config-fault-other/%d/k%d" % (mode, k), mode, P2 + [AO_ON, op("config_fault", 0, 0, 10 * k + 3), op("h_forget"), op("forget", 0, 0, 2)]))
+    # a handle kept across operations without any fault behaves like a fresh one
+    S.append(("kept-handle", 0, P2 + [op("keep"), op("h_config", 0, 0, 2), op("h_forget"), op("h_prune", 0, 0, 1), op("h_config", 0, 0, 1), op("h_forget")]))
     return S
+
+
+def scripted_big():
+    """one repository with more blobs (60 000) than the indexer holds before saving an index file by
+    itself (50 000): dry-runs must stay silent also when many pack headers are re-read"""
+    return [("many-blobs", 2, [op("bigbackup"), op("repair_index", 1, 1), op("repair_index", 0, 1), op("repair_snapshots", 0, 1), op("rewrite", 0, 1, 1),
+                               op("bigbackup", 0, 1, 1), AO_ON, op("repair_index", 1, 1), op("prune", 0, 0, 0), op("bigbackup", 0, 1, 2), op("repair_snapshots", 1, 1)])]
 
 
 NAMES = ["backup", "forget", "prune", "repair_index", "repair_snapshots", "rewrite", "config", "add_key", "delete_key",
@@ -114,13 +136,21 @@ def impl_line(seed, hotcold, ops):
     return "%d %d %d %s" % (seed, hotcold, len(ops), " ".join("%s %d %d %d" % o for o in ops))
 
 
-def model_line(ops, flags):
-    out = [str(len(ops))]
+def model_line(mode, ops, flags):
+    out = [str(mode), str(len(ops))]
     for (name, flag, dry, v) in ops:
         fl = {}
         if name.startswith("dmg_"):
-            out.append("-1 0"); continue
-        if name == "backup": e = "EBackup"; fl["dry_run"] = dry
+            out.append("-1 0 0 0"); continue
+        if name == "keep":
+            out.append("-2 0 0 0"); continue
+        on_kept, fault = 0, 0
+        if name.startswith("h_"):
+            name = name[2:]; on_kept = 1
+        if name == "config_fault":
+            # which part's write is hit -> position of the fault (cold is written first)
+            fault = {0: 1, 1: 2, 2: 3, 3: 4}[v // 10]; v = v % 10; name = "config"
+        if name in ("backup", "bigbackup"): e = "EBackup"; fl["dry_run"] = dry
         elif name == "forget": e = "EForget"
         elif name == "prune":
             e = "EPrune"; fl["instant_delete"] = int(v in (1, 2, 5)); fl["early_delete_index"] = int(v == 2)
@@ -138,7 +168,7 @@ def model_line(ops, flags):
         elif name == "init_hot": e = "EInitHot"
         else: raise RuntimeError("unknown op " + name)
         kv = [(flags[k], b) for k, b in fl.items() if k in flags]
-        out.append("%d %d %s" % (EIDX[e], len(kv), " ".join("%d %d" % x for x in kv)))
+        out.append("%d %d %d %d %s" % (EIDX[e], on_kept, fault, len(kv), " ".join("%d %d" % x for x in kv)))
     return " ".join(out)
 
 
@@ -150,7 +180,17 @@ def parse_impl_op(s):
             k, n = c.rsplit("*", 1)
             k = k.replace("cold.", "").replace("hot.", "")
             d[k] = d.get(k, 0) + int(n)
-    return name, int(ao.split("=")[1]), res, int(lost.split("=")[1]), d
+    return name, parse_views(ao), res, int(lost.split("=")[1]), d
+
+
+def parse_views(s):
+    """'ao=1,c=1,h=-' -> dict(ao=1, c=1 or None, h=0/1 or None)"""
+    d = {}
+    for kv in s.split(","):
+        k, v = kv.split("=")
+        d[k] = int(v) if v in ("0", "1") else None
+    d.setdefault("c", d.get("ao")); d.setdefault("h", None)
+    return d
 
 
 def class_allowed(c, model_cls):
@@ -228,6 +268,8 @@ def run(ctx):
     for sd in range(nseeds):
         for (lab, hc, ops) in scripted():
             seqs.append((lab, rng.randint(1, 10 ** 9), hc, ops))
+    for (lab, hc, ops) in scripted_big():
+        seqs.append((lab, rng.randint(1, 10 ** 9), hc, ops))
     nrand = 120 if ctx.thorough() else 14
     for i in range(nrand):
         hc = 1 if rng.random() < 0.25 else 0
@@ -242,7 +284,7 @@ def run(ctx):
     il = [impl_line(sd, hc, ops) for (_, sd, hc, ops) in seqs]
     log("C15: %d operation sequences, %d operations" % (len(seqs), sum(len(s[3]) for s in seqs)))
     io = run_lines(impl, il, "seq", "s", timeout=6000)
-    mo = run_lines(model, [model_line(ops, flags) for (_, _, _, ops) in seqs], "seq", "sm") if model else None
+    mo = run_lines(model, [model_line(hc, ops, flags) for (_, _, hc, ops) in seqs], "seq", "sm") if model else None
     nops = 0
     seen_model_cls = {}
     for si, ((lab, sd, hc, ops), out) in enumerate(zip(seqs, io)):
@@ -253,10 +295,20 @@ def run(ctx):
         if len(parts) != len(ops):
             viol.append(("harness output malformed", {"impl_line": il[si], "out": out}, None)); continue
         for k, (o, ps) in enumerate(zip(ops, parts)):
-            name, ao, res, lost, cls = parse_impl_op(ps)
+            name, views, res, lost, cls = parse_impl_op(ps)
             nops += 1
-            if name.startswith("dmg_"):
+            if name.startswith("dmg_") or name == "keep":
                 continue
+            # the repository is marked append-only iff its stored (cold, authoritative) config says so;
+            # `ao` below: the stored flag, or the flag the executing handle believes in
+            on_kept = name.startswith("h_")
+            stored = views["c"] if views["c"] is not None else views["ao"]
+            believed = views["h"] if (on_kept and views["h"] is not None) else views["ao"]
+            ao = 1 if (stored or believed) else 0
+            if on_kept:
+                name = name[2:]
+            if name in ("config_fault", "bigbackup"):
+                name = {"config_fault": "config", "bigbackup": "backup"}[name]
             key = "%s%s%s" % (name, "/ao" if ao else "", "/dry" if (o[2] and name in HAS_DRY) else "")
             hist[key + ":" + res] = hist.get(key + ":" + res, 0) + 1
             wit = {"impl_line": il[si], "scenario": lab, "op_index": k, "op": list(o), "observed": ps,
@@ -264,17 +316,24 @@ def run(ctx):
             sig = None
             if name == "hotcold" and any(x[0] == "dmg_hot_truncate" for x in ops[:k]):
                 sig = "hotcold-repair-size-mismatch"
+            faults = [x for x in ops[:k + 1] if x[0] == "config_fault"]
+            if stored and not believed and faults:
+                if on_kept and faults[-1][3] % 10 in (1, 3):
+                    sig = "config-disable-failed-handle-unlocked"
+                elif not on_kept and hc == 1 and views["ao"] == 0:
+                    sig = "hotcold-config-diverged-fresh-handle"
             # ---- oracle
             destroyed = [c for c in cls if (c.startswith("R:") and c.split(":")[1] in PROTECTED) or (c.startswith("W:") and c.endswith(":over") and c.split(":")[1] in PROTECTED)]
-            if ao and (destroyed or lost):
-                viol.append(("an operation on an append-only repository removed or replaced a stored snapshot/index/pack file (%s)" % name, wit, sig))
+            if stored and (destroyed or lost):
+                viol.append(("an operation on a repository whose stored config is append-only removed or replaced a stored snapshot/index/pack file (%s%s)" % (
+                    name, "" if believed else ", the handle's config says otherwise"), wit, sig))
             if res == "refused" and cls:
                 viol.append(("an operation refused for append-only touched the storage before failing (%s)" % name, wit, sig))
             if res == "panic":
                 viol.append(("operation panics (%s)" % name, wit, sig))
             if o[2] and name in HAS_DRY and (cls or lost):
                 viol.append(("a dry-run of %s wrote to or removed from the repository" % name, wit, sig))
-            if any(c.endswith(":over") and c.split(":")[1] in PROTECTED for c in cls) and not ao:
+            if any(c.endswith(":over") and c.split(":")[1] in PROTECTED for c in cls) and not stored:
                 # replacing a content-addressed file with other bytes is never intended
                 viol.append(("a stored snapshot/index/pack file was replaced by different bytes (%s)" % name, wit, sig))
             if ao and (res == "refused" or cls):
@@ -282,9 +341,9 @@ def run(ctx):
             # ---- correspondence with the model
             if mo:
                 mp = mparts[k].split(":", 2)
-                m_ao, m_res, m_cls = int(mp[0].split("=")[1]), mp[1], ([] if mp[2] == "-" else mp[2].split(","))
-                if m_ao != ao:
-                    mism.append(("append_only state", il[si], ps, mparts[k], k))
+                m_views, m_res, m_cls = parse_views(mp[0]), mp[1], ([] if mp[2] == "-" else mp[2].split(","))
+                if any(m_views[x] != views[x] for x in ("ao", "c", "h") if views[x] is not None or x == "h"):
+                    mism.append(("append_only state (fresh view / stored cold / kept handle)", il[si], ps, mparts[k], k))
                 # an `err` (e.g. a damaged file made the preparation fail before the guard was reached)
                 # is compatible with a modelled refusal as long as nothing touched the storage
                 if (res == "refused" and m_res != "refused") or (res in ("ok", "panic") and m_res == "refused"):
@@ -309,7 +368,11 @@ def run(ctx):
     def reproduces(line, k, observed):
         for _ in range(2):
             o2 = run_lines(impl, [line], "seq", "c")[0].split(" ; ")
-            if k >= len(o2) or parse_impl_op(o2[k])[2:] != parse_impl_op(observed)[2:]:
+            # same result and same effect classes (counts of packs / index files may differ between runs)
+            def shape(x):
+                _, _, res, lost, cls = parse_impl_op(x)
+                return (res, lost > 0, sorted(cls))
+            if k >= len(o2) or shape(o2[k]) != shape(observed):
                 return False
         return True
     kept = []
@@ -327,6 +390,7 @@ def run(ctx):
         if "impl_line" in wit and "op_index" in wit:
             if not reproduces(wit["impl_line"], wit["op_index"], wit["observed"]):
                 hist["unconfirmed_violation_dropped"] = hist.get("unconfirmed_violation_dropped", 0) + 1
+                cov.setdefault("unconfirmed_dropped", []).append({"what": what, "scenario": wit.get("scenario"), "op": wit.get("op"), "observed": wit.get("observed"), "impl_line": wit.get("impl_line")})
                 continue
         confirmed.append((what, wit, sig))
     viol = confirmed
